@@ -25,7 +25,7 @@ type Hdr struct {
 
 // Step is one write.
 type Step struct {
-	Kind   string `json:"kind"` // req raw udp
+	Kind   string `json:"kind"` // req raw udp close (close = the peer closes connection Conn)
 	Name   string `json:"name"`
 	Method string `json:"method,omitempty"`
 	URL    string `json:"url,omitempty"`
@@ -39,6 +39,7 @@ type Step struct {
 	Expect string `json:"expect,omitempty"` // rtsp http "" (nothing expected)
 	Glue   bool   `json:"glue,omitempty"`   // written together with the next step (pipelined, one write)
 	Port   int    `json:"port,omitempty"`   // udp: source port; destination is the server's RTP (even) / RTCP (odd) port
+	Grp    int    `json:"grp,omitempty"`    // session-id group ({S} is the id last seen in this group's responses)
 }
 
 const (
